@@ -1,5 +1,5 @@
 // C01: run the REAL `pdf_printer` binary (built from /repo's working tree by ./check) on one
-// file per case, in a subprocess with a time limit and an address-space limit, and report how it
+// file per case, in a subprocess with a time limit (10 s) and an address-space limit (4 GiB), and report how it
 // ended.  Acceptable: exit status 0 (completed) or 1 (located rejection).  Everything else
 // (panic exit code 101, abort, signal, timeout) is reported as `abnormal <kind>`.
 // The first word (`completed` | `rejected` | `abnormal`) is compared with the end-to-end Lean model
@@ -122,7 +122,7 @@ fn run(line: &str) -> String {
         Err(e) => return format!("bad-case cannot-spawn {}", e),
     };
     let start = Instant::now();
-    let limit = Duration::from_secs(20);
+    let limit = Duration::from_secs(10);
     let status = loop {
         match child.try_wait() {
             Ok(Some(st)) => break Some(st),
